@@ -14,6 +14,7 @@ FIELD_TYPES.update({
     ("ThrottleExecutor", "_to_submit"): ("deque", INST("ThrottleJob")),
     ("ThrottleExecutor", "_lock"): "lock",
     ("ThrottleExecutor", "_event"): "event",
+    ("ThrottleExecutor", "_space_event"): "event",
     ("ThrottleExecutor", "_running_count"): INST("AtomicInt"),
     ("ThrottleExecutor", "_throttle"): "callable",
     ("ThrottleExecutor", "_last_throttle"): OPT("int"),
@@ -34,7 +35,7 @@ was_returned = z3.Function("count_was_returned", Val, B)
 
 def _cfg():
     cfg = make_cfg()
-    cfg.stable |= {"_log", "_block", "_name", "_delegate", "_event", "_running_count", "_throttle", "_shutdown", "_thread", "_to_submit"}
+    cfg.stable |= {"_log", "_block", "_name", "_delegate", "_event", "_space_event", "_running_count", "_throttle", "_shutdown", "_thread", "_to_submit"}
     cfg.stable |= {"future", "fn", "args", "kwargs"}      # fields of the immutable ThrottleJob record (namedtuple)
     cfg.protected.update({"value": "lock"})
 
@@ -226,6 +227,19 @@ def _post_iter(engine, st, ctx, out):
         # only the count callable / delegate may make this function raise; _eval_throttle swallows the former
         cl.append(("hand-over step does not raise by itself", "EX", False, ["C18", "C07"]))
         return cl
+    from pyvc.vals import TupleV
+    if out is None:
+        cl.append(("the scan says stop only after shutdown / interpreter exit", "PC",
+                   z3.BoolVal(any(("is_shutdown" in a) and b for a, b in st.decisions)), ["C11", "C12"]))
+        return cl
+    ok = isinstance(out, TupleV) and len(out.items) == 2
+    cl.append(("otherwise the scan answers (event, wait time)", "WK", z3.BoolVal(ok), ["C07", "C03"]))
+    if ok:
+        ev, wt = out.items
+        cl.append(("the event handed back is the executor's own wake-up event", "WK", engine.to_val(st, ev) == st.get("_event", ctx["sid"]), ["C07", "C03"]))
+        w = engine.to_val(st, wt)
+        cl.append(("the wait is always bounded (the count may be a function of time: re-evaluated after at most 30 s, 2 s when nothing runs)", "WK",
+                   z3.And(z3.Not(Val.is_none(w)), z3.Or(w == Val.realv(z3.RealVal(30)), w == Val.realv(z3.RealVal(2)))), ["C07", "C03"]))
     return cl
 
 
